@@ -35,10 +35,13 @@ import (
 	kithttp "github.com/influxdata/influxdb/v2/kit/transport/http"
 	"github.com/influxdata/influxdb/v2/mock"
 	"github.com/influxdata/influxdb/v2/models"
+	"github.com/influxdata/influxdb/v2/storage"
 	"github.com/influxdata/influxdb/v2/tsdb"
 	"go.uber.org/zap"
 	"verifh/vh"
 )
+
+const sigLogMask = "logging-writer-loses-dropped-count"
 
 // hung is set when the handler did not answer: a definitive failure; generation stops.
 var hung bool
@@ -64,6 +67,10 @@ type jcase struct {
 	Chunks      []int  `json:"chunks"`
 	Stalls      int    `json:"stalls"` // (0, nil) answers of the scripted reader before its EOF (plain direct only)
 	Writer      int    `json:"writer"` // 0 ok, 1 partial, 2 other error
+	Logger      bool   `json:"logger"`  // the real storage.LoggingPointsWriter sits between the handler and the recording writer
+	Finder      int    `json:"finder"`  // its BucketFinder: 0 finds the log bucket, 1 finds none, 2 fails
+	LogOK       bool   `json:"log_ok"`  // the write of the write_errors point succeeds
+	LogWrites   int    `json:"impl_log_writes"`
 	Dropped     int    `json:"dropped"`
 	// observed
 	Status     int        `json:"impl_status"`
@@ -74,12 +81,32 @@ type jcase struct {
 	Calls      [][]jpoint `json:"impl_calls"`
 }
 
+const dataBucket, logBucket = platform.ID(2), platform.ID(3)
+
 type recorder struct {
-	calls [][]jpoint
-	err   error
+	calls     [][]jpoint // writes to the data bucket
+	err       error
+	logWrites int // writes to the log bucket (the write_errors point)
+	logErr    error
+}
+
+type finder struct{ mode int }
+
+func (f finder) FindBuckets(ctx context.Context, flt influxdb.BucketFilter, _ ...influxdb.FindOptions) ([]*influxdb.Bucket, int, error) {
+	switch f.mode {
+	case 0:
+		return []*influxdb.Bucket{{ID: logBucket, OrgID: 1, Name: "_monitoring"}}, 1, nil
+	case 1:
+		return nil, 0, nil
+	}
+	return nil, 0, &errors2.Error{Code: errors2.EInternal, Msg: "bucket store unavailable"}
 }
 
 func (r *recorder) WritePoints(ctx context.Context, o, b platform.ID, pts []models.Point) error {
+	if b == logBucket {
+		r.logWrites++
+		return r.logErr
+	}
 	s := []jpoint{}
 	for _, p := range pts {
 		s = append(s, jpoint{string(p.Key()), p.UnixNano()})
@@ -198,6 +225,9 @@ func handler(c *jcase, pw *recorder) http.Handler {
 	log := zap.NewNop()
 	b := &ihttp.APIBackend{HTTPErrorHandler: kithttp.NewErrorHandler(log), Logger: log, OrganizationService: orgs,
 		BucketService: buckets, PointsWriter: pw, WriteEventRecorder: &metric.NopEventRecorder{}}
+	if c.Logger {
+		b.PointsWriter = &storage.LoggingPointsWriter{Underlying: pw, BucketFinder: finder{c.Finder}, LogBucketName: "_monitoring"}
+	}
 	h := ihttp.NewWriteHandler(log, ihttp.NewWriteBackend(log, b), ihttp.WithMaxBatchSizeBytes(c.Limit))
 	return http.HandlerFunc(func(w http.ResponseWriter, r *http.Request) {
 		if c.Auth {
@@ -233,8 +263,12 @@ func exec(c *jcase) (status int, respBody []byte, calls [][]jpoint, fail string)
 	case 2:
 		pw.err = fmt.Errorf("engine closed")
 	}
+	if !c.LogOK {
+		pw.logErr = fmt.Errorf("log bucket write failed")
+	}
 	h := handler(c, pw)
 	data := wire(c)
+	defer func() { c.LogWrites = pw.logWrites }()
 	if c.Transport == "direct" {
 		r := httptest.NewRequest("POST", "http://localhost:8086/api/v2/write?"+query(c), &scripted{data: data, chunks: append([]int{}, c.Chunks...), eager: c.Eager, stalls: c.Stalls})
 		if c.Encoding != "" {
@@ -395,15 +429,24 @@ func run(w *vh.W, c *jcase) {
 		}
 		callTerms = append(callTerms, vh.List(pts))
 	}
+	logger := "None"
+	if c.Logger {
+		logger = vh.Some(vh.Pair(vh.N(uint64(c.Finder)), vh.Bool(c.LogOK)))
+	}
 	t := fmt.Sprintf("{| c_auth := %s; c_prec_valid := %s; c_bucket_param := %s; c_gzip_header := %s; c_org_found := %s; c_bucket_found := %s; c_perm := %s; "+
-		"c_prec := %s; c_limit := %s; c_body := %s; c_end := %s; c_eager := %s; c_stall := %s; c_script := %s; c_writer := %s; c_wdropped := %s; "+
+		"c_prec := %s; c_limit := %s; c_body := %s; c_end := %s; c_eager := %s; c_stall := %s; c_script := %s; c_writer := %s; c_wdropped := %s; c_logger := %s; "+
 		"o_status := %s; o_code := %s; o_rejected := %s; o_dropped := %s; o_calls := %s |}",
 		vh.Bool(c.Auth), vh.Bool(precValid), vh.Bool(c.BucketParam), vh.Bool(c.GzipFault != "header"), vh.Bool(c.OrgFound), vh.Bool(c.BucketFound), vh.Bool(c.Perm),
-		vh.N(precCode[c.Precision]), vh.Z(c.Limit), segs([]byte(c.Body)), vh.N(endc), eager, vh.N(uint64(c.Stalls)), vh.List(script), vh.N(uint64(c.Writer)), vh.N(uint64(c.Dropped)),
+		vh.N(precCode[c.Precision]), vh.Z(c.Limit), segs([]byte(c.Body)), vh.N(endc), eager, vh.N(uint64(c.Stalls)), vh.List(script), vh.N(uint64(c.Writer)), vh.N(uint64(c.Dropped)), logger,
 		vh.N(uint64(status)), vh.N(code), vh.List(rej), vh.OptN(c.DroppedObs), vh.List(callTerms))
 	preOK := c.Auth && precValid && c.BucketParam && c.GzipFault != "header" && c.OrgFound && c.BucketFound && c.Perm
 	n := int64(len(c.Body))
-	sig := "" // the former finding limit-exact-body-rejected is fixed (commit ea653b404e): nothing is tolerated
+	sig := "" // the former finding limit-exact-body-rejected is fixed (commit ea653b404e): nothing is tolerated for it
+	// shape of the open finding, decided from the inputs only: the engine reports a partial write and the
+	// LoggingPointsWriter cannot log it (no log bucket / finder error / log write fails)
+	if preOK && c.Logger && c.Writer == 1 && (c.Finder != 0 || !c.LogOK) {
+		sig = sigLogMask
+	}
 	delta := "nolimit"
 	if c.Limit > 0 {
 		switch d := n - c.Limit; {
@@ -428,6 +471,11 @@ func run(w *vh.W, c *jcase) {
 	w.Count("rejected_lines", fmt.Sprint(len(c.Rejected)))
 	w.Count("writer", fmt.Sprint(c.Writer))
 	w.Count("stalls", fmt.Sprint(c.Stalls))
+	if c.Logger {
+		w.Count("logger", fmt.Sprintf("finder=%d logok=%v writer=%d", c.Finder, c.LogOK, c.Writer))
+	} else {
+		w.Count("logger", "none")
+	}
 	w.Count("kind", c.Kind)
 }
 
@@ -473,7 +521,7 @@ func genBody(r interface{ IntN(int) int }, nbad int, big bool) string {
 }
 
 func base(kind string) jcase {
-	return jcase{Kind: kind, Transport: "direct", Auth: true, BucketParam: true, OrgFound: true, BucketFound: true, Perm: true}
+	return jcase{Kind: kind, Transport: "direct", Auth: true, BucketParam: true, OrgFound: true, BucketFound: true, Perm: true, LogOK: true}
 }
 
 func main() {
@@ -537,6 +585,18 @@ func main() {
 		c = base("corpus-limit-gzip-checksum") // the trailer error surfaces at the probe: 400, not 413
 		c.Body, c.Limit, c.Encoding, c.GzipFault = three, 42, "gzip", "checksum"
 		run(w, &c)
+		for _, wr := range []int{0, 1, 2} { // the real LoggingPointsWriter: log bucket found / missing / finder error, log write ok / failing
+			for _, f := range []int{0, 1, 2} {
+				for _, ok := range []bool{true, false} {
+					c = base("corpus-logging-writer")
+					c.Body, c.Writer, c.Dropped, c.Logger, c.Finder, c.LogOK = three, wr, 2, true, f, ok
+					run(w, &c)
+				}
+			}
+		}
+		c = base("corpus-logging-writer-empty") // an empty batch never reaches the engine
+		c.Body, c.Writer, c.Dropped, c.Logger = "# only a comment\n", 1, 2, true
+		run(w, &c)
 		c = base("corpus-malformed-over-limit")
 		c.Body, c.Limit = "bad\n"+three, 20
 		run(w, &c)
@@ -589,6 +649,14 @@ func main() {
 			c.Writer, c.Dropped = 1, r.IntN(5)
 		case 1:
 			c.Writer = 2
+		}
+		if r.IntN(5) < 2 { // the launcher's wrapper in front of the engine
+			c.Logger = true
+			c.Finder = []int{0, 0, 0, 1, 2}[r.IntN(5)]
+			c.LogOK = r.IntN(4) != 0
+			if r.IntN(2) == 0 && c.Writer == 0 {
+				c.Writer, c.Dropped = 1+r.IntN(2), 1+r.IntN(4)
+			}
 		}
 		if r.IntN(10) == 0 {
 			c.Kind = "gen-precondition"
